@@ -39,6 +39,10 @@ RULES = {
               "vx_u16_to_le_bytes / vx_u16_from_le_bytes",
     "R-sig": "contract text inserted between signature and body; loop invariants before loop bodies; "
              "ghost blocks before named statements; return value named",
+    "R-derive": "derive lists containing PartialEq+Eq get Verus' ghost marker `Structural` added (states that "
+                "the derived == is structural equality, which is Rust's semantics of derive(PartialEq))",
+    "R-closure": "a closure `|a| EXPR` named by a directive becomes `|a| -> (r: T) ensures .. { EXPR }` "
+                 "(ghost annotation; EXPR verbatim) because Verus does not infer closure postconditions",
     "R-self": "`Self::` in inherent-emitted trait methods left as is",
 }
 
@@ -144,7 +148,7 @@ def apply_cfg(text, applied):
 DROP_ATTR = re.compile(
     r"^#\[(inline(\(\w+\))?|allow\(.*\)|rustfmt::skip|cfg_attr\(\s*feature\s*=\s*\"strum\".*\)|"
     r"non_exhaustive|must_use|doc\s*=.*|repr\(.*\))\]$", re.S)
-KEEP_DERIVES = {"Clone", "Copy", "PartialEq", "Eq", "Debug"}
+KEEP_DERIVES = {"Clone", "Copy", "PartialEq", "Eq", "Debug", "Structural"}
 
 
 def apply_attr(text, applied):
@@ -179,6 +183,9 @@ def apply_attr(text, applied):
             keep = [x for x in names if x.split("::")[-1] in KEEP_DERIVES]
             if keep != names:
                 applied.add("R-attr")
+            if "PartialEq" in keep and "Eq" in keep and "Structural" not in keep:
+                keep = keep + ["Structural"]
+                applied.add("R-derive")
             rep = "#[derive(%s)]" % ", ".join(keep) if keep else ""
             text = text[:m.start()] + rep + text[close + 1:]
             pos = m.start() + len(rep)
@@ -407,6 +414,26 @@ def splice_fn(text, spec):
         else:
             le = text.find("\n", pos)
             edits.append((le + 1, le + 1, txt.rstrip() + "\n"))
+    for k, rx, rname, rty, txt in spec.get("closures", []):
+        hits = [m for m in re.finditer(rx, msk[body + 1:end])]
+        if len(hits) < k:
+            raise ExtractError("lost anchor: closure /%s/ #%d not found" % (rx, k))
+        hs = body + 1 + hits[k - 1].end()      # just after the closure head `|..|`
+        # closure body expression: up to the unmatched ')' or a ',' at depth 0
+        i, depth = hs, 0
+        while i < end:
+            ch = msk[i]
+            if ch in "([{":
+                depth += 1
+            elif ch in ")]}":
+                if depth == 0:
+                    break
+                depth -= 1
+            elif ch == "," and depth == 0:
+                break
+            i += 1
+        edits.append((hs, hs, " -> (%s: %s)\n%s\n{ " % (rname, rty, txt.rstrip())))
+        edits.append((i, i, " }"))
     if spec.get("rename"):
         m = re.search(r"\bfn\s+(\w+)", msk)
         edits.append((m.start(1), m.end(1), spec["rename"]))
@@ -492,7 +519,7 @@ def build_unit(template_path, repo, canary=False):
                 rename = am.group(1)
                 toks = toks[:am.start()]
             relfile, path = toks.split(None, 1)
-            spec = dict(ret=None, sig="", loops={}, ats=[], rename=rename)
+            spec = dict(ret=None, sig="", loops={}, ats=[], rename=rename, closures=[])
             i += 1
             section = None
             buf = []
@@ -507,6 +534,8 @@ def build_unit(template_path, repo, canary=False):
                     spec["loops"][section[1]] = txt
                 elif section[0] == "at":
                     spec["ats"].append((section[1], section[2], txt, section[3]))
+                elif section[0] == "closure":
+                    spec["closures"].append((section[1], section[2], section[3], section[4], txt))
             while i < len(lines):
                 t = lines[i].strip()
                 if t.startswith("//@"):
@@ -524,6 +553,11 @@ def build_unit(template_path, repo, canary=False):
                         section = ("sig",)
                     elif dd.startswith("loop "):
                         section = ("loop", int(dd.split()[1]))
+                    elif dd.startswith("closure "):
+                        mm = re.match(r"closure\s+(\d+)\s+/(.*)/\s+(\w+)\s*:\s*(.+)$", dd)
+                        if not mm:
+                            raise ExtractError("bad directive: " + dd)
+                        section = ("closure", int(mm.group(1)), mm.group(2), mm.group(3), mm.group(4))
                     elif dd.startswith("at ") or dd.startswith("after "):
                         mm = re.match(r"(at|after)\s+(\d+)\s+/(.*)/\s*$", dd)
                         if not mm:
@@ -537,14 +571,19 @@ def build_unit(template_path, repo, canary=False):
                 i += 1
             name, raw = locate(repo, relfile, path)
             txt, rules = rewrite(raw, "fn", nopub)
-            if canary and spec["sig"]:
-                if re.search(r"\bensures\b", spec["sig"]):
-                    spec["sig"] = re.sub(r"\bensures\b", "ensures false,", spec["sig"], count=1)
+            plain = splice_fn(txt, spec)
+            ctxt = None
+            if canary:
+                cspec = dict(spec)
+                csig = spec["sig"]
+                if re.search(r"\bensures\b", csig):
+                    csig = re.sub(r"\bensures\b", "ensures false,", csig, count=1)
                 else:
-                    spec["sig"] += "\n    ensures false,"
-            elif canary:
-                spec["sig"] = "    ensures false,"
-            txt = splice_fn(txt, spec)
+                    csig = csig + "\n    ensures false,"
+                cspec["sig"] = csig
+                cspec["rename"] = (rename or name) + "__canary"
+                ctxt = splice_fn(txt, cspec)
+            txt = plain
             rules.add("R-sig")
             u.clauses += sum(len(re.findall(r",\s*$", t, re.M)) for t in
                              [spec["sig"]] + list(spec["loops"].values()))
@@ -553,6 +592,12 @@ def build_unit(template_path, repo, canary=False):
             u.items.append(dict(kind="fn", file=relfile, path=path, name=rename or name, props=props,
                                 sha_before=sha(raw), sha_after=sha(txt), rules=sorted(rules),
                                 line_lo=lo, line_hi=cur_line() - 1, contracted=True))
+            if ctxt is not None:
+                lo = cur_line()
+                out.append(ctxt)
+                u.items.append(dict(kind="fn", file=relfile, path=path, name=(rename or name) + "__canary",
+                                    props=props, sha_before=sha(raw), sha_after=sha(ctxt), rules=sorted(rules),
+                                    line_lo=lo, line_hi=cur_line() - 1, contracted=False, canary=True))
         else:
             raise ExtractError("unknown directive: " + d)
     u.text = "\n".join(out)
